@@ -35,6 +35,6 @@ def run(tier):
     cm.run_monitors(r, ['mon_intersect_voronoi'])
     lean_lemma(r, tier)
     r.explanation = ('proved (Engine C): c_intersect lists each grid cell holding a catchment-cell centre exactly once with weight count x area ratio '
-                     '(pigeonhole lemma external: proved in lean/Pigeonhole.lean, re-checked by the thorough tier); c_voronoi memory safety, rejection of an empty point set, non-negative weights; '
+                     '(pigeonhole lemma external: proved in lean/Pigeonhole.lean, re-checked by the thorough tier); c_voronoi#nearest: weight j == (number of cells whose nearest point is j) / ncells and the counts add up to ncells (weights sum to 1); c_voronoi memory safety, rejection of an empty point set, non-negative weights; '
                      'bounded: nearest-point fractions and sums (python monitors)')
     return r.finish()
